@@ -439,6 +439,41 @@ fn run_sched_child(ctx: &Ctx, nt: usize, per: usize, bound: &str, cap: u64) -> O
     Some(v)
 }
 
+/// first path at which two JSON values differ
+fn first_diff(a: &Value, b: &Value) -> Option<String> {
+    fn rec(a: &Value, b: &Value, path: &str) -> Option<String> {
+        match (a, b) {
+            (Value::Object(x), Value::Object(y)) => {
+                for (k, v) in x {
+                    match y.get(k) {
+                        Some(w) => {
+                            if let Some(d) = rec(v, w, &format!("{}.{}", path, k)) {
+                                return Some(d);
+                            }
+                        }
+                        None => return Some(format!("{}.{} missing", path, k)),
+                    }
+                }
+                y.keys().find(|k| !x.contains_key(*k)).map(|k| format!("{}.{} extra", path, k))
+            }
+            (Value::Array(x), Value::Array(y)) => {
+                if x.len() != y.len() {
+                    return Some(format!("{} length {} vs {}", path, x.len(), y.len()));
+                }
+                x.iter().zip(y.iter()).enumerate().find_map(|(i, (v, w))| rec(v, w, &format!("{}[{}]", path, i)))
+            }
+            _ => {
+                if a == b {
+                    None
+                } else {
+                    Some(format!("{} {} vs {}", path.trim_start_matches('.'), a, b))
+                }
+            }
+        }
+    }
+    rec(a, b, "")
+}
+
 // ---------------------------------------------------------------- main
 
 pub fn run(ctx: &Ctx) -> i32 {
@@ -597,9 +632,88 @@ pub fn run(ctx: &Ctx) -> i32 {
             (c, s) => ctx.violation(&format!("reference-pair:{}:unreadable", model), &format!("conversion ok: {}, shipped model loads: {}", matches!(c, Outcome::Ok(_)), s.is_ok()), json!({"project": proj, "model": model})),
         }
     }
+    // ---- 5. one model object computed, edited in place through its public fields (or purged, checked, cloned), and
+    // computed again: the second result is the one of a model freshly loaded from the edited object's JSON
+    {
+        let bases: Vec<(String, Model)> = {
+            let mut v = vec![("generated box".to_string(), model_canary())];
+            for (n, m) in shipped_models().into_iter().filter(|(n, _)| n == "cubo.json" || n == "ejemploviv_unif.json") {
+                v.push((n, m));
+            }
+            v
+        };
+        let edits: Vec<(&str, fn(&mut Model))> = vec![
+            ("first window removed", |m| {
+                if !m.windows.is_empty() {
+                    m.windows.remove(0);
+                }
+            }),
+            ("climate zone changed", |m| m.meta.climate = zone("A3c")),
+            ("multiplier of the first space doubled", |m| {
+                if let Some(s) = m.spaces.first_mut() {
+                    s.multiplier *= 2.0;
+                }
+            }),
+            ("a shade added", |m| m.shades.push(Shade { id: uid("c05-shade"), name: "c05-shade".into(), geometry: geom(90.0, 0.0, Some([-2.0, -1.0, 0.0]), rect(30.0, 12.0)), ..Default::default() })),
+            ("first wall construction removed", |m| {
+                if !m.cons.wallcons.is_empty() {
+                    m.cons.wallcons.remove(0);
+                }
+            }),
+            ("first wall removed", |m| {
+                if !m.walls.is_empty() {
+                    m.walls.remove(0);
+                }
+            }),
+            ("blower-door value set, existing building", |m| {
+                m.meta.n50_test_ach = Some(2.5);
+                m.meta.is_new_building = !m.meta.is_new_building;
+            }),
+            ("every space 1 m higher", |m| {
+                for s in m.spaces.iter_mut() {
+                    s.height += 1.0;
+                }
+            }),
+            ("purged", |m| {
+                let _ = bemodel::purge_unused(m);
+            }),
+            ("checked, then the last space removed", |m| {
+                let _ = bemodel::check(m);
+                m.spaces.pop();
+            }),
+        ];
+        let val = |m: &Model| serde_json::to_value(m.energy_indicators()).unwrap_or(Value::Null);
+        for (bname, base) in &bases {
+            for (what, f) in &edits {
+                ctx.eval(1);
+                ctx.nontriv(1);
+                transitions += 1;
+                let case = json!({"part": "in-place-edit", "model": bname, "history": ["indicators", what, "indicators"]});
+                let r = catch(std::panic::AssertUnwindSafe(|| {
+                    let mut m = base.clone();
+                    let _ = val(&m);
+                    f(&mut m);
+                    let after = val(&m);
+                    let c = m.clone();
+                    let after_clone = val(&c);
+                    let fresh = Model::from_json(&m.as_json().unwrap()).map(|q| val(&q)).unwrap_or(Value::Null);
+                    (after, after_clone, fresh)
+                }));
+                match r {
+                    Ok((after, after_clone, fresh)) => {
+                        if after != fresh || after_clone != fresh {
+                            let d = first_diff(&after, &fresh).or_else(|| first_diff(&after_clone, &fresh)).unwrap_or_default();
+                            ctx.violation(&format!("history-dependent:in-place-edit:{}", d.split(|c: char| c == ' ' || c == '[').next().unwrap_or("")), &format!("{}: indicators, then '{}', then indicators on the same object differ from the indicators of the edited model loaded afresh: {}", bname, what, d), case);
+                        }
+                    }
+                    Err(_) => {} // totality is C14's question
+                }
+            }
+        }
+    }
     ctx.finish(
         "model_checking",
-        &format!("(1) histories: every sequence of 1 and 2 operations over 9 operations (3 conversions, 5 indicator computations incl. a model without windows and a broken model, 1 collect_hulc_data with extra files) and {} sequences of 3 over a 6-operation core, each run in a fresh worker process: the last operation's observation (model JSON bytes / indicators as JSON value) must equal its observation as the only operation of a fresh process, and repeat identically 3x in-process; 4 conversions x 8 fresh processes byte-identical; (2) id locality: for corpus and generated projects, appending each of 12 unrelated definitions (material, layers, glass, frame, gap, polygon, day/week/year schedule, shade, bridge, floor+space+wall) keeps every pre-existing element id - also when the added definition borrows the name of an existing definition of another kind of the same family (day/week/year schedules; material/layers/glazing/frame/gap) -, and writing the first block of every type twice (straight after itself / again at the end) gives the same bytes on every conversion, on another thread too, and keeps the ids; (3) schedules: controlled scheduler over the three hooked lock sites, real threads, DFS with preemption bounds as listed in schedule_exploration (deadlock / panic / result-vs-sequential-reference per execution, replay determinism checked first), + a free-running 16-thread sampling complement; (4) the 6 shipped (project, reference model) pairs compared through today's serialiser", ctx.tier.pick(36, 216)),
+        &format!("(1) histories: every sequence of 1 and 2 operations over 9 operations (3 conversions, 5 indicator computations incl. a model without windows and a broken model, 1 collect_hulc_data with extra files) and {} sequences of 3 over a 6-operation core, each run in a fresh worker process: the last operation's observation (model JSON bytes / indicators as JSON value) must equal its observation as the only operation of a fresh process, and repeat identically 3x in-process; 4 conversions x 8 fresh processes byte-identical; (2) id locality: for corpus and generated projects, appending each of 12 unrelated definitions (material, layers, glass, frame, gap, polygon, day/week/year schedule, shade, bridge, floor+space+wall) keeps every pre-existing element id - also when the added definition borrows the name of an existing definition of another kind of the same family (day/week/year schedules; material/layers/glazing/frame/gap) -, and writing the first block of every type twice (straight after itself / again at the end) gives the same bytes on every conversion, on another thread too, and keeps the ids; (3) schedules: controlled scheduler over the three hooked lock sites, real threads, DFS with preemption bounds as listed in schedule_exploration (deadlock / panic / result-vs-sequential-reference per execution, replay determinism checked first), + a free-running 16-thread sampling complement; (4) the 6 shipped (project, reference model) pairs compared through today's serialiser; (5) 3 models x 10 in-place histories (indicators, then an edit through the public fields / purge / check, then indicators on the same object and on its clone) against the edited model loaded afresh from its JSON", ctx.tier.pick(36, 216)),
         true,
         json!({"states": states.max(1), "transitions": transitions.max(1), "traces_validated_against_impl": transitions}),
     )
